@@ -32,7 +32,7 @@ meta={"id":id_,"property":pid,"title":title,
       "needs_to_manifest":next((l.strip("- ").strip() for l in notes.splitlines() if l.lower().startswith("- to manifest")), "")
                           or next((" ".join(p.split())[:600] for p in re.split(r"\n\s*\n", notes)
                                    if re.search(r"needs?( |$)|to manifest|manifest", p, re.I) and p.strip() and not p.startswith("#") and p.strip() != title), ""),
-      "patch_rebased_onto_fixed_tree": id_ in ("C07-m1","C02-m2","C08-m1","C19-m1","C17-m2","C15-m4","C16-m3","C03-m4","C08-m6"),
+      "patch_rebased_onto_fixed_tree": id_ in ("C07-m1","C02-m2","C08-m1","C19-m1","C17-m2","C15-m4","C16-m3","C03-m4","C08-m6","C08-m3","C14-m2","C14-m6"),
       "how_to_run":"tools/try_mutant.sh <check id> /verif/seeded/%s/patch.diff  (applies to /repo, runs the check, undoes the change)"%id_,
       "verdicts":verd,
       "caught":any(v["violations"]>0 for v in verd)}
